@@ -1,5 +1,5 @@
 import MdsVerif.Proofs.Mbits
-import MdsVerif.Model.Mstr
+import MdsVerif.Proofs.Trunc
 /-!
 # C20 — byte and string helpers agree with their naive definitions on every input
 
@@ -68,5 +68,69 @@ example : Mbits.zero [1,2,3,4,5,6,7,8,9,10,11] = .ok (11, [0,0,0,0,0,0,0,0,0,0,0
 /-- the checked model does notice an out-of-slice word access: with `&^ 3` in place of `&^ 7`
 (i.e. `m = 4` for a 4-byte slice) the word loop reads past the end -/
 example : Mbits.lzWords [0,0,0,0] 4 4 5 0 = .oob := by decide
+
+/-!
+## mstr.Trunc
+
+`Trunc(s, n)` for `n ≥ 0` never panics and returns a prefix of `s` of at most
+`n` bytes, `s` itself when `n ≥ len(s)` — for **every** byte string.  On a
+concatenation of *characters* (`Trunc.IsChar`: a non-continuation byte followed
+by ≤ 3 continuation bytes, starting `11xxxxxx` if it has any) the result is a
+concatenation of a prefix of the same characters and is at most 4 bytes (one
+encoded character) shorter than `n`; well-formed UTF-8 in the sense of Unicode
+Table 3-7 (`Spec.Bytes.validUTF8`, compared with Go's `utf8.ValidString` on
+every generated string) is such a concatenation, so validity is preserved.
+A negative `n` panics in `s[:n]` (modelled; outside the property's quantifier).
+-/
+
+theorem C20_trunc_negative (s : List UInt8) (n : Int) (hn : n < 0) : Mstr.trunc s n = .bounds := by
+  have : ¬ (n ≥ (s.length : Int)) := by omega
+  simp [Mstr.trunc, this, hn]
+
+/-- prefix, length ≤ n, identity for n ≥ len; no panic — every byte string, every n ≥ 0 -/
+theorem C20_trunc_prefix (s : List UInt8) (n : Int) (hn : 0 ≤ n) :
+    ∃ r, Mstr.trunc s n = .ok r ∧ r <+: s ∧ (r.length : Int) ≤ n ∧ (n ≥ s.length → r = s) := by
+  by_cases hge : n ≥ (s.length : Int)
+  · exact ⟨s, by simp [Mstr.trunc, hge], List.prefix_refl s, by omega, fun _ => rfl⟩
+  · obtain ⟨k, hk1, hk2⟩ := Trunc.cut_le s n.toNat (by omega)
+    have hn0 : ¬ n < 0 := by omega
+    have hks : k ≤ s.length := by omega
+    refine ⟨s.take k, ?_, List.take_prefix k s, ?_, fun h => absurd h hge⟩
+    · simp [Mstr.trunc, hge, hn0, hk1, Mstr.slicePrefix, hks]
+    · rw [List.length_take]; omega
+
+/-- on a concatenation of characters the result is a concatenation of the first `j` of them,
+and when something is cut off it is at most 4 bytes shorter than `n` -/
+theorem C20_trunc_chars (cs : List (List UInt8)) (h : ∀ c ∈ cs, Trunc.IsChar c) (n : Int) (hn : 0 ≤ n) :
+    ∃ j, Mstr.trunc cs.flatten n = .ok (cs.take j).flatten ∧
+      (n < cs.flatten.length → n ≤ ((cs.take j).flatten.length : Int) + 4) := by
+  by_cases hge : n ≥ (cs.flatten.length : Int)
+  · exact ⟨cs.length, by simp [-List.length_flatten, Mstr.trunc, hge], fun h => by omega⟩
+  · obtain ⟨j, hj1, hj2, hj3⟩ := Trunc.cut_chars cs h n.toNat (by omega)
+    have hn0 : ¬ n < 0 := by omega
+    have hle := Trunc.flatten_take_length_le cs j
+    have htake : cs.flatten.take (cs.take j).flatten.length = (cs.take j).flatten := by
+      conv => lhs; arg 2; rw [← List.take_append_drop j cs, List.flatten_append]
+      exact List.take_left' rfl
+    refine ⟨j, ?_, fun _ => by omega⟩
+    simp [-List.length_flatten, Mstr.trunc, hge, hn0, hj1, Mstr.slicePrefix, hle, htake]
+
+/-- well-formed UTF-8 stays well-formed, and loses at most one encoded character (4 bytes) below `n` -/
+theorem C20_trunc_valid (s : List UInt8) (n : Int) (hn : 0 ≤ n) (hv : Bytes.validUTF8 s = true) :
+    ∃ r, Mstr.trunc s n = .ok r ∧ Bytes.validUTF8 r = true ∧ (n < s.length → n ≤ (r.length : Int) + 4) := by
+  obtain ⟨cs, rfl, hcs⟩ := (Trunc.validUTF8_iff_chars s).mp hv
+  obtain ⟨j, hj1, hj2⟩ := C20_trunc_chars cs (fun c hc => Trunc.uchar_isChar c (hcs c hc)) n hn
+  refine ⟨_, hj1, ?_, hj2⟩
+  exact (Trunc.validUTF8_iff_chars _).mpr ⟨cs.take j, rfl, fun c hc => hcs c (List.mem_of_mem_take hc)⟩
+
+/-! non-vacuity: "a😀b" cut inside, and exactly after, the four-byte character (the second is the
+extreme case: 4 bytes below n); "é" cut in the middle; an invalid string is still only shortened -/
+example : Mstr.trunc [0x61, 0xF0, 0x9F, 0x98, 0x80, 0x62] 3 = .ok [0x61] := by decide
+example : Mstr.trunc [0x61, 0xF0, 0x9F, 0x98, 0x80, 0x62] 5 = .ok [0x61] := by decide
+example : Mstr.trunc [0xC3, 0xA9] 1 = .ok [] := by decide
+example : Mstr.trunc [0x80, 0x80, 0x80, 0x80, 0x80, 0x80, 0x61] 6 = .ok [] := by decide
+example : Bytes.validUTF8 [0x61, 0xF0, 0x9F, 0x98, 0x80, 0x62] = true := by decide
+example : Bytes.validUTF8 [0xED, 0xA0, 0x80] = false := by decide   -- a surrogate
+example : Bytes.validUTF8 [0xC0, 0x80] = false := by decide         -- overlong
 
 end MdsVerif.Props.C20
